@@ -74,9 +74,10 @@ func init() {
 		Extra: func(r *Run) {
 			r.restrictedTables()
 			r.fixStdlibShape()
+			r.flagGating()
 		},
-		Covered: []string{"default table lacks unsafe/syscall/os/exec", "exit entry points bound to the restricted replacements, which never return normally and call no exiting function", "no unwrapped *log.Logger is handed out (function results and variables)", "Getenv/LookupEnv/Setenv/Unsetenv/Clearenv implement the map model over interp.env", "Environ lists exactly the map; ExpandEnv expands through the map's Getenv, never the host's", "New: Options.Env parsed at the first '=', streams and arguments taken from the options, only YAEGI_* host variables read", "print builtins write to the interpreter's stdout only", "shape of the stream/argument redirection closures of fixStdlib"},
-		Uncov:   []string{"cmd/yaegi flag gating", "loggers reachable through struct fields (http.Server.ErrorLog) or interfaces"},
+		Covered: []string{"default table lacks unsafe/syscall/os/exec", "exit entry points bound to the restricted replacements, which never return normally and call no exiting function", "no unwrapped *log.Logger is handed out (function results and variables)", "Getenv/LookupEnv/Setenv/Unsetenv/Clearenv implement the map model over interp.env", "Environ lists exactly the map; ExpandEnv expands through the map's Getenv, never the host's", "New: Options.Env parsed at the first '=', streams and arguments taken from the options, only YAEGI_* host variables read", "print builtins write to the interpreter's stdout only", "cmd/yaegi: each of the syscall / unsafe / unrestricted switches is wired to its own environment variable, flag (default: its own environment value) and Use guard", "shape of the stream/argument redirection closures of fixStdlib"},
+		Uncov:   []string{"loggers reachable through struct fields (http.Server.ErrorLog) or interfaces"},
 		Trusted: []string{"T1 go toolchain, go/types, solvers", "T2 govc", "T5 log.Panic* panic without exiting; fmt.Fprint* write only to their writer"},
 	})
 }
